@@ -183,10 +183,46 @@ func (g *gen) raise(tag string) []zn.Stmt {
 		return []zn.Stmt{show("nm", v("未知名"))}
 	case 9:
 		g.labels["raise:in-loop"] = true
-		return []zn.Stmt{&zn.ForEach{Names: []string{"W" + tag}, E: &zn.ListLit{Items: []zn.Expr{num(1), num(2), num(3)}}, Body: []zn.Stmt{
-			show("loop-"+tag, v("W"+tag)),
-			&zn.If{Conds: []zn.Expr{&zn.Bin{Op: "==", L: v("W" + tag), R: num(2)}}, Blocks: [][]zn.Stmt{{&zn.Throw{Class: "异常", Args: []zn.Expr{str("l-" + tag)}}}}},
-		}}}
+		// raised in the second pass of a loop of any kind (list / dictionary, 0..2 loop
+		// variables, 每当), by a 抛出 of either class or by a runtime fault: no further pass,
+		// no statement after the loop
+		var raise zn.Stmt
+		switch g.pick(4, "loop-raise") {
+		case 0:
+			raise = &zn.Throw{Class: "异常", Args: []zn.Expr{str("l-" + tag)}}
+		case 1:
+			raise = &zn.Throw{Class: "E1", Args: []zn.Expr{str("lc-" + tag), num(7)}}
+		case 2:
+			raise = show("lz", &zn.Bin{Op: "/", L: num(1), R: num(0)})
+		default:
+			raise = &zn.Throw{Class: "E2", Args: []zn.Expr{str("ld-" + tag)}}
+		}
+		w := "W" + tag
+		body := []zn.Stmt{
+			show("loop-"+tag, v(w)),
+			&zn.If{Conds: []zn.Expr{&zn.Bin{Op: "==", L: v(w), R: num(2)}}, Blocks: [][]zn.Stmt{{raise}}},
+		}
+		after := show("after-loop-" + tag)
+		switch g.pick(6, "loop-kind") {
+		case 0:
+			return []zn.Stmt{&zn.ForEach{Names: []string{w}, E: &zn.ListLit{Items: []zn.Expr{num(1), num(2), num(3)}}, Body: body}, after}
+		case 1:
+			return []zn.Stmt{&zn.ForEach{Names: []string{"K" + tag, w}, E: &zn.ListLit{Items: []zn.Expr{num(1), num(2), num(3)}}, Body: body}, after}
+		case 2:
+			g.labels["raise:in-dictionary-loop"] = true
+			return []zn.Stmt{&zn.ForEach{Names: []string{w}, E: &zn.DictLit{Keys: []string{"a", "b", "c"}, Vals: []zn.Expr{num(1), num(2), num(3)}}, Body: body}, after}
+		case 3:
+			g.labels["raise:in-dictionary-loop"] = true
+			return []zn.Stmt{&zn.ForEach{Names: []string{"K" + tag, w}, E: &zn.DictLit{Keys: []string{"z", "m", "a"}, Vals: []zn.Expr{num(1), num(2), num(3)}}, Body: body}, after}
+		case 4:
+			// no loop variable: a counter of the body's own
+			g.labels["raise:in-dictionary-loop"] = true
+			return []zn.Stmt{&zn.Let{Names: []string{w}, E: num(0)}, &zn.ForEach{E: &zn.DictLit{Keys: []string{"a", "b", "c"}, Vals: []zn.Expr{num(1), num(2), num(3)}},
+				Body: append([]zn.Stmt{&zn.ExprStmt{E: &zn.Assign{Target: v(w), E: &zn.Bin{Op: "+", L: v(w), R: num(1)}}}}, body...)}, after}
+		default:
+			return []zn.Stmt{&zn.Let{Names: []string{w}, E: num(0)}, &zn.While{Cond: &zn.Bin{Op: "<", L: v(w), R: num(3)},
+				Body: append([]zn.Stmt{&zn.ExprStmt{E: &zn.Assign{Target: v(w), E: &zn.Bin{Op: "+", L: v(w), R: num(1)}}}}, body...)}, after}
+		}
 	default:
 		g.labels["raise:in-constructor"] = true
 		return []zn.Stmt{&zn.Let{Names: []string{"O" + tag}, E: &zn.New{Class: "K9", Args: []zn.Expr{num(0)}}}}
@@ -251,8 +287,13 @@ func (g *gen) funcBody(i int, depth int) ([]zn.Stmt, []zn.Catch) {
 		r := "R" + tag
 		switch g.pick(5, "callsite") {
 		case 0: // the protected call sits inside a 遍历 pass (the loop's own scope is open when the exception passes)
+			var coll zn.Expr = &zn.ListLit{Items: []zn.Expr{num(1), num(2)}}
+			if g.pick(2, "loop-over-dict") == 0 {
+				coll = &zn.DictLit{Keys: []string{"z", "a"}, Vals: []zn.Expr{num(1), num(2)}}
+				g.labels["call-inside-dictionary-loop"] = true
+			}
 			body = append(body, &zn.Let{Names: []string{r}, E: num(-5)},
-				&zn.ForEach{Names: []string{"I" + tag}, E: &zn.ListLit{Items: []zn.Expr{num(1), num(2)}}, Body: []zn.Stmt{
+				&zn.ForEach{Names: []string{"I" + tag}, E: coll, Body: []zn.Stmt{
 					&zn.Let{Names: []string{"B" + tag}, E: v("I" + tag)},
 					&zn.ExprStmt{E: &zn.Assign{Target: v(r), E: call}},
 					show(tag+"-in-loop", v("B"+tag)),
